@@ -57,3 +57,29 @@ class SapModel(object):
         if nondet_bool():
             return None
         return AnyPdu(3, 3)       # RR / RNR
+
+
+import nfc.clf
+from pyvc_rt import nondet_bytes
+
+
+class MacModel(object):
+    """the NFC-DEP layer below the link controller: one exchange delivers arbitrary octets, nothing, or fails
+    with one of the documented communication errors"""
+    def __init__(self):
+        self.calls = 0
+
+    def exchange(self, send_data, timeout):
+        self.calls = self.calls + 1
+        k = nondet_int(0, 5)
+        if k == 1:
+            raise nfc.clf.TimeoutError
+        if k == 2:
+            raise nfc.clf.TransmissionError
+        if k == 3:
+            raise nfc.clf.ProtocolError
+        if k == 4:
+            raise nfc.clf.BrokenLinkError
+        if k == 5:
+            return None
+        return nondet_bytes(0, None)
